@@ -13,8 +13,9 @@ Record fixes := { fx_noauth : bool;   (* C17_noauth_password.diff: no password p
                   fx_tail : bool;     (* C17_password_tail_max.diff: a tail that fills its space completely is still appended *)
                   fx_chan : bool;     (* C17_channel_number.diff: channel number = digits only, 0..255 *)
                   fx_slash : bool;    (* C17_prefix_slash.diff: the byte after the prefix must be '/' *)
-                  fx_uval : bool }.   (* C17_prepare_val_unsigned.diff: digits taken from an unsigned copy *)
-Definition FIXED : fixes := {| fx_noauth := true; fx_tail := true; fx_chan := true; fx_slash := true; fx_uval := true |}.
+                  fx_uval : bool;     (* C17_prepare_val_unsigned.diff: digits taken from an unsigned copy *)
+                  fx_digits : bool }. (* C17_str2int_strict.diff: a number needs a digit before the dot/end; integer accumulation *)
+Definition FIXED : fixes := {| fx_noauth := true; fx_tail := true; fx_chan := true; fx_slash := true; fx_uval := true; fx_digits := true |}.
 
 (* ---------- C strings ---------- *)
 Fixpoint cstr (l : list Z) : list Z := match l with [] => [] | x :: t => if x =? 0 then [] else x :: cstr t end.
@@ -91,17 +92,25 @@ Fixpoint span_digits (l : list Z) : list Z * list Z :=
   | d :: t => if is_digit d then let '(a, b) := span_digits t in (d :: a, b) else ([], l)
   | [] => ([], [])
   end.
-(* supla_esp_mqtt_str2int: None = *err = 1 *)
-Definition str2int (s : list Z) : option Z :=
-  let '(neg, r) := match s with 45 :: t => (true, t) | _ => (false, s) end in
+(* repaired accumulation: `if (result > (INT_MAX - 9) / 10) error; result = result * 10 + digit` *)
+Fixpoint acc_int (acc : Z) (l : list Z) : option Z :=
+  match l with [] => Some acc | d :: t => if 214748363 <? acc then None else acc_int (acc * 10 + (d - 48)) t end.
+(* supla_esp_mqtt_str2int: None = *err = 1.  Grammar: ['-'] digits ['.' digits]; the value is the integer part.
+   Unrepaired code (fx_digits = false): the integer part may be empty ("-", "-.5" read as 0) and the value is summed
+   with pow() in floating point (undefined for values that do not fit an int; modelled as the exact value). *)
+Definition str2int (fx : fixes) (s : list Z) : option Z :=
+  let '(neg, r) := match s with c :: t => if c =? 45 then (true, t) else (false, s) | [] => (false, s) end in
   let '(ip, rest) := span_digits r in
-  let v := digits_val 0 ip in
   let ok := match rest with
             | [] => true
-            | 46 :: frac => (neg || negb (len ip =? 0)) && forallb is_digit frac
-            | _ => false
+            | c :: frac => (c =? 46) && (neg || negb (len ip =? 0)) && forallb is_digit frac
             end in
-  if ok then Some (if neg then - v else v) else None.
+  if ok then
+    if fx_digits fx then
+      if len ip =? 0 then None
+      else match acc_int 0 ip with Some v => Some (if neg then - v else v) | None => None end
+    else Some (if neg then - digits_val 0 ip else digits_val 0 ip)
+  else None.
 
 Fixpoint index_of (x : Z) (l : list Z) (i : Z) : option Z :=
   match l with [] => None | y :: t => if y =? x then Some i else index_of x t (i + 1) end.
@@ -117,7 +126,7 @@ Definition parse_channel (fx : fixes) (tn : list Z) : option (Z * list Z) :=
     let seg := take a t in let rest := drop (a + 1) t in
     if fx_chan fx then
       if forallb is_digit seg && (digits_val 0 seg <=? 255) then Some (digits_val 0 seg, rest) else None
-    else match str2int seg with Some v => Some (u8 v, rest) | None => None end
+    else match str2int fx seg with Some v => Some (u8 v, rest) | None => None end
   end.
 
 (* common head of the parsers: guards, prefix, channel *)
@@ -156,11 +165,11 @@ Definition parser_set_on (fx : fixes) (prefix topic msg : list Z) : option (Z * 
 (* supla_esp_mqtt_parser_rs_fb_action: Some (channel, action, percentage, tilt) *)
 Definition ACT_SHUT := 4. Definition ACT_SHUT_PCT := 5. Definition ACT_REVEAL := 6. Definition ACT_STOP := 7.
 Definition ACT_RECALIBRATE := 8. Definition ACT_SET_TILT := 9.
-Definition percent (msg : list Z) : option Z :=
-  match str2int msg with Some p => if (0 <=? p) && (p <=? 100) then Some p else None | None => None end.
-Definition rs_cmd (cmd msg : list Z) : option (Z * Z * Z) :=
-  if list_eqb cmd s_set_closing then match percent msg with Some p => Some (ACT_SHUT_PCT, p, 0) | None => None end
-  else if list_eqb cmd s_set_tilt then match percent msg with Some p => Some (ACT_SET_TILT, 0, p) | None => None end
+Definition percent (fx : fixes) (msg : list Z) : option Z :=
+  match str2int fx msg with Some p => if (0 <=? p) && (p <=? 100) then Some p else None | None => None end.
+Definition rs_cmd (fx : fixes) (cmd msg : list Z) : option (Z * Z * Z) :=
+  if list_eqb cmd s_set_closing then match percent fx msg with Some p => Some (ACT_SHUT_PCT, p, 0) | None => None end
+  else if list_eqb cmd s_set_tilt then match percent fx msg with Some p => Some (ACT_SET_TILT, 0, p) | None => None end
   else if list_eqb cmd s_execute_action then
     if lc_equal w_shut msg then Some (ACT_SHUT, 0, 0) else if lc_equal w_reveal msg then Some (ACT_REVEAL, 0, 0)
     else if lc_equal w_stop msg then Some (ACT_STOP, 0, 0) else if lc_equal w_recalibrate msg then Some (ACT_RECALIBRATE, 0, 0)
@@ -169,7 +178,16 @@ Definition rs_cmd (cmd msg : list Z) : option (Z * Z * Z) :=
 Definition parser_rs_fb (fx : fixes) (prefix topic msg : list Z) : option (Z * Z * Z * Z) :=
   match parse_head fx prefix topic msg with
   | None => None
-  | Some (ch, cmd) => match rs_cmd cmd msg with Some (a, p, t) => Some (ch, a, p, t) | None => None end
+  | Some (ch, cmd) => match rs_cmd fx cmd msg with Some (a, p, t) => Some (ch, a, p, t) | None => None end
+  end.
+
+(* supla_esp_mqtt_parser_set_brightness (MQTT_DIMMER_SUPPORT): Some (channel, brightness) *)
+Definition s_set_brightness : list Z := [115;101;116;47;98;114;105;103;104;116;110;101;115;115].
+Definition parser_brightness (fx : fixes) (prefix topic msg : list Z) : option (Z * Z) :=
+  match parse_head fx prefix topic msg with
+  | None => None
+  | Some (ch, cmd) => if list_eqb cmd s_set_brightness
+                      then match percent fx msg with Some p => Some (ch, p) | None => None end else None
   end.
 
 (* ---------- supla_esp_mqtt_prepare_val ---------- *)
@@ -251,6 +269,10 @@ Definition step (fx : fixes) (s : st) (w : wire) : st * list wire :=
       let tl := nth 0 a 0 in
       match parser_rs_fb fx (cur_prefix s) (take tl b) (drop tl b) with
       | Some (ch, ac, p, t) => (s, [mk 3 [1; ch; ac; p; t] []]) | None => (s, [mk 3 [0; 0; 0; 0; 0] []]) end
+    else if k =? 6 then
+      let tl := nth 0 a 0 in
+      match parser_brightness fx (cur_prefix s) (take tl b) (drop tl b) with
+      | Some (ch, p) => (s, [mk 5 [1; ch; p] []]) | None => (s, [mk 5 [0; 0; 0] []]) end
     else (s, [mk 4 [] (prepare_val fx (negb (nth 0 a 0 =? 0)) (nth 2 a 0 * 4294967296 + nth 3 a 0) (nth 1 a 0))])
   end.
 Fixpoint run_from (fx : fixes) (s : st) (ws : list wire) : list wire :=
